@@ -350,9 +350,9 @@ def cmd_replay(path):
     for u in spec['units']('quick') + spec['units']('thorough'):
         if u['name'] == r['unit']:
             binp, _, _ = build_unit(u['src'], u.get('flags', ()), u.get('text'), u.get('opt', '-O1'), u.get('cxx'))
+            full = sh([binp, 'case', r['case']], stdout=subprocess.PIPE, stderr=subprocess.STDOUT, text=True, errors='replace', preexec_fn=_big_stack).stdout
+            print('\n'.join(l for l in full.splitlines() if not l.startswith('STAT')))
             rc, vs = replay_case(binp, r['case'])
-            for v in vs:
-                print(v)
             if vs:
                 print('VIOLATION property=%s replay=%s' % (pid, path))
                 return 1
